@@ -13,7 +13,7 @@ import (
 	"filippo.io/sunlight/internal/verifmc"
 )
 
-func jsonMarshalC14(x any) ([]byte, error) { return json.Marshal(x) }
+func c14JSON(x any) ([]byte, error) { return json.Marshal(x) }
 
 // c14SelfCheck validates the reference code against itself and against the
 // real witness before anything is judged with it (failures are engine errors).
